@@ -587,6 +587,15 @@ def _(p):
     return None
 
 
+@replay("c18_context_arrays")
+def _(p):
+    from . import c18_common as cc
+
+    for tg, msg in cc.context_array_problems(p["formula"], tuple(p["history"])):
+        return f"{tg}: formula {p['formula']!r} (a, b as float64 arrays in the context): {msg}"
+    return None
+
+
 # ------------------------------------------------------------------------------------------------ C20
 
 
